@@ -268,7 +268,7 @@ func init() {
 		Fn: func(r *Run) {
 			r.Rule("C40.layout", "Go ABI type lists, argument roles, size constants and binding structs agree with the Solidity sources", 40)
 			r.Rule("C40.sorted", "indices sorted ascending before use; signatures in signer order and 65 bytes each; members hash over operating members in order", 18)
-			r.Rule("C40.gate", "submission only of the assembled result the contract validated; signed hash from the same inputs", 5)
+			r.Rule("C40.gate", "submission only of the assembled result the contract validated; signed hash from the same inputs; inactivity claim only with at least groupThreshold signatures", 8)
 			load := func(rel string) *solFile {
 				f, err := LoadSol(r.W, solDir+rel)
 				if err != nil {
@@ -679,6 +679,17 @@ func init() {
 					}
 					want := []string{"P2", "call:pkg/tecdsa/dkg.Result.GroupPublicKey(P3)#0", "call:pkg/protocol/group.Group.OperatingMemberIndexes(P3.Group)", "call:pkg/tecdsa/dkg.Result.MisbehavedMembersIndexes(P3)", "P4", "P0.groupSelectionResult"}
 					r.Cond(seqEq(got, want), "C40.gate", name+"#assembled-from", c.Pos(), fmt.Sprintf("assembled from the submitter index, the result's key, operating and misbehaved members, the collected signatures and the group selection; got %v", got))
+				}
+			}
+			if gf := r.MustFn("C40.gate", "pkg/tbtc", "inactivityClaimSubmitter.SubmitClaim"); gf != nil {
+				name := FnName(gf)
+				// the contract requires signaturesCount >= groupThreshold; the client's HonestThreshold equals it (C40.layout)
+				for _, c := range Sites(gf, `^invoke:pkg/tbtc\.Chain\.(AssembleInactivityClaim|SubmitInactivityClaim)$`, false) {
+					r.Check("C40.gate", name+"#"+strings.TrimPrefix(CalleeName(c), "invoke:pkg/tbtc.Chain."), c.Pos(), Facts(c.Block()),
+						`^-\(len\(P4\) < P0\.groupParameters\.HonestThreshold\)$|^\+\(P0\.groupParameters\.HonestThreshold <= len\(P4\)\)$`)
+				}
+				for _, c := range Sites(gf, `^invoke:pkg/tbtc\.Chain\.AssembleInactivityClaim$`, false) {
+					r.Cond(Desc(c.Common().Args[2]) == "P4", "C40.gate", name+"#signatures", c.Pos(), "the counted signatures are the ones assembled into the claim")
 				}
 			}
 			if gf := r.MustFn("C40.gate", "pkg/tbtc", "dkgResultSigner.SignResult"); gf != nil {
